@@ -388,6 +388,30 @@ def c16_case(rec, hub, rng, tier, which):
         pred = {k: sum(prof[c] * basis[c][k] for c in range(nt)) for k in Rb}
         bsc = {k: max(float(np.max(np.abs(v))), float(np.max(np.abs(pred[k]))), 1e-300) for k, v in Rb.items()}
         cmp("impulse-basis", pred, Rb, "response-differs-from-the-superposition-of-unit-impulse-responses", sc=bsc)
+    # the same laws on ONE object that is re-used and re-parameterised between runs (no state may leak between computes)
+    if cls_name == "InflowDrivenDSM" and nt <= 12:
+        live = make_stock(fd, cfg, cls_name, lm=build_lm(fd, cfg), inflow=x)
+        with quiet():
+            live.compute()
+        new_truth = {k: np.array(v) * (1.3 if k in ("mean", "weibull_scale") else 1.0) for k, v in cfg["truth"].items()}
+        with quiet():
+            live.lifetime_model.set_prms(**{k: np.array(v) for k, v in new_truth.items()})
+        with hub.pause():
+            ref_lm = S.clone_lm(fd, live.lifetime_model, prms=new_truth)
+            sf_new = np.asarray(ref_lm.sf, dtype=float)
+        for c in sorted(set(rng.integers(0, nt, size=3).tolist())):
+            imp = np.array(x, dtype=float)  # cohorts other than c keep their previous inflow bit-identical
+            imp[c] = imp[c] + 1.0
+            live.inflow.values[...] = imp
+            with quiet():
+                live.compute()
+            exp_stock = np.einsum("c...,tc...->t...", imp * dt.reshape((nt,) + (1,) * (imp.ndim - 1)), sf_new)
+            rec.event(M16, sig=f"reused-object|{base}", cls=f"reused-object|{cls_name}|{cfg['gclass']}")
+            sc_ = max(float(np.max(np.abs(exp_stock))), 1e-300)
+            if np.max(np.abs(live.stock.values - exp_stock)) > 1e-10 * sc_:
+                rec.violation(M16, "reused-and-re-parameterised-object-does-not-follow-the-current-survival-table:InflowDrivenDSM",
+                              dict(model=cfg["model"], cohort=int(c), time_items=cfg["items"][:12], rel_diff=float(np.max(np.abs(live.stock.values - exp_stock)) / sc_)))
+                break
     # unit impulses (inflow-driven): stock = sf[:, c] * dt[c]
     if cls_name == "InflowDrivenDSM":
         lm = build_lm(fd, cfg)
